@@ -774,10 +774,10 @@ def d_float(accept):
         e = peek_item(st)
         if e is None:
             return eoi(m)
-        if e[0] == 'ITEM' and e[1] in accept:
+        if e[0] == 'ITEM' and e[1] in accept and (e[1] != 'F16' or m.prog.feature('half')):
             advance(st)
             return ok(e[2])
-        return mismatch(m, st, 'float', e)
+        return mismatch(m, st, 'float', e)     # (without feature `half` a half-precision item is a type error: L1 tables, C04)
     return h
 
 
